@@ -84,6 +84,8 @@ VALUE_GROUPS = [
     ["[{'a': 1}, {'a': 1, 'b': 's'}]", "[{'a': 1, 'c': 2}]"], ["[{'x': None}, {'y': 'q'}]", "[{'z': 1.5}]", "[]"],
     ["{'k': [{'a': 1}, {'b': 'x'}]}", "{'k': [{'c': 1.5}]}"], ["({'a': 1},)", "({'a': 1, 'b': 'x'},)"],
     ["Registry", "A"], ["{SKey('a'): 1}", "{'b': 2}"], ["[[]]", "[[1]]", "[]"], ["(1, 'a')", "()"],
+    # a class object and instances at one position (of that class, of sibling classes)
+    ["A", "A()"], ["B", "C()", "D"], ["Registry", "Registry()"], ["[A, A()]", "[B()]"], ["M", "D()", "B()"],
 ]
 # positions that see many sibling classes and None: more union members than RewriteLargeUnion's default maximum
 WIDE_GROUPS = [
